@@ -758,3 +758,147 @@ Proof.
 Qed.
 
 End Fractions.
+
+(** ---------- a type without a sheet *)
+Section Missing.
+Variable T : trtables.
+
+Lemma gen_assets_items i : forall acs st st', gen_assets T i st acs = Ok st' -> exists items, all_items T i acs = Ok items.
+Proof.
+  induction acs as [|ac acs IH]; intros st st' H; cbn [gen_assets all_items] in *; [exists []; reflexivity|].
+  destruct (gen_asset T i st ac) as [st1|] eqn:EA; [|discriminate]. unfold gen_asset in EA.
+  destruct (size_sheets T (type_count i (snd ac)) (ts_sheets st)) as [sized|]; [|discriminate].
+  destruct (mk_items T (asset_sources i ac)) as [a|]; [|discriminate].
+  destruct (IH _ _ H) as [b Hb]. rewrite Hb. exists (a ++ b). reflexivity.
+Qed.
+
+Lemma mk_item_type s it : mk_item T s = Ok it -> it_type it = t_type (g_ev (rs_gl s)).
+Proof. unfold mk_item. destruct (cells_of _ _ _); [|discriminate]. intro H. inversion H. reflexivity. Qed.
+
+(** a fraction of the window whose transaction type is on no sheet makes the whole report fail
+    (KeyError in [_TYPE_TO_SHEET[sheet_type]]): nothing is written for any asset *)
+Theorem missing_type_fails i acs : computed_all i (rp_assets i) = Ok acs ->
+  (exists src, In src (all_sources i acs) /\ type_to_sheet T (t_type (g_ev (rs_gl src))) = None) ->
+  exists e, tax_report T i = Err e.
+Proof.
+  intros HC [src [Hsrc Hnone]]. destruct (tax_report T i) as [out|e] eqn:H; [|exists e; reflexivity]. exfalso.
+  unfold tax_report in H. rewrite HC in H.
+  destruct (init_sheets T i) as [sheets|]; [|discriminate].
+  destruct (gen_assets T i {| ts_rows := init_rows T; ts_sheets := sheets |} acs) as [st|] eqn:EG; [|discriminate].
+  destruct (gen_assets_items i acs _ _ EG) as [items HI].
+  pose proof (gen_assets_routed T i acs _ _ items EG HI) as R.
+  apply In_nth_error in Hsrc. destruct Hsrc as [k Hk].
+  destruct (Forall2_nth _ _ _ _ _ (all_items_Forall2 T i acs items HI) Hk) as [it [Hit Hmk]].
+  rewrite Forall_forall in R. apply (R it (nth_error_In _ _ Hit)). rewrite (mk_item_type _ _ Hmk). exact Hnone.
+Qed.
+End Missing.
+
+(** ---------- what the field identifiers of the layout stand for *)
+Lemma field_vals_computed f s :
+  field_val f s TF_proceeds = onum (g_proceeds (rs_gl s))
+  /\ field_val f s TF_cost = onum (g_cost (rs_gl s))
+  /\ field_val f s TF_gain = onum (g_gain (rs_gl s))
+  /\ field_val f s TF_long_short = Ok (PStr (if g_long (rs_period s) (rs_gl s) then s_LONG else s_SHORT))
+  /\ field_val f s TF_ev_date = Ok (PStr (fmt_date f (t_ts (g_ev (rs_gl s)))))
+  /\ field_val f s TF_ev_ts = Ok (PTs (t_ts (g_ev (rs_gl s))))
+  /\ field_val f s TF_amount = Ok (PNum (of_grid (g_amt (rs_gl s))))
+  /\ field_val f s TF_asset = Ok (PStr (rs_asset s))
+  /\ (forall l, g_lot (rs_gl s) = Some l -> field_val f s TF_lot_date = Ok (PStr (fmt_date f (i_ts l)))).
+Proof. repeat split. intros l H. cbn [field_val]. rewrite H. reflexivity. Qed.
+
+(** ---------- finite facts about the regenerated tables (re-checked on every run) *)
+Ltac in_list := cbn; repeat (first [left; reflexivity | right]).
+
+Lemma taxable_types_iff ty :
+  In ty taxable_types <-> (is_earn_type ty && in_type_allowed ty) || out_type_allowed ty || ttype_eqb ty MOVE = true.
+Proof.
+  unfold taxable_types. rewrite filter_In. split; [tauto|]. intro H. split; [destruct ty; cbn; tauto | exact H].
+Qed.
+
+Lemma routing_total_spec T : routing_total T = true -> forall ty, In ty taxable_types -> exists n, type_to_sheet T ty = Some n.
+Proof.
+  unfold routing_total. intros H ty Hty. rewrite forallb_forall in H. specialize (H ty Hty).
+  destruct (type_to_sheet T ty) as [n|]; [exists n; reflexivity | discriminate].
+Qed.
+
+Lemma us_tables_ok : tables_ok tax_tables_us = true.
+Proof. vm_compute. reflexivity. Qed.
+Lemma ie_tables_ok : tables_ok tax_tables_ie = true.
+Proof. vm_compute. reflexivity. Qed.
+Lemma us_routing_total : routing_total tax_tables_us = true.
+Proof. vm_compute. reflexivity. Qed.
+Lemma us_append_ok : append_ok tax_tables_us.
+Proof. intros c Hc. unfold tax_tables_us. cbn [tt_append_rows tt_min_rows]. lia. Qed.
+Lemma ie_append_ok : append_ok tax_tables_ie.
+Proof. intros c Hc. unfold tax_tables_ie. cbn [tt_append_rows tt_min_rows]. lia. Qed.
+
+Definition n_capital_gains : str := [67; 97; 112; 105; 116; 97; 108; 32; 71; 97; 105; 110; 115].
+Definition n_gifts : str := [71; 105; 102; 116; 115].
+Definition n_donations : str := [68; 111; 110; 97; 116; 105; 111; 110; 115].
+Definition n_investment_expenses : str := [73; 110; 118; 101; 115; 116; 109; 101; 110; 116; 32; 69; 120; 112; 101; 110; 115; 101; 115].
+Definition n_airdrops : str := [65; 105; 114; 100; 114; 111; 112; 115].
+Definition n_hard_forks : str := [72; 97; 114; 100; 32; 70; 111; 114; 107; 115].
+Definition n_income : str := [73; 110; 99; 111; 109; 101].
+Definition n_interest : str := [73; 110; 116; 101; 114; 101; 115; 116].
+Definition n_mining : str := [77; 105; 110; 105; 110; 103].
+Definition n_staking : str := [83; 116; 97; 107; 105; 110; 103].
+Definition n_wages : str := [87; 97; 103; 101; 115].
+
+(** the routing the property text prescribes *)
+Definition routing_as_documented (T : trtables) : Prop :=
+  type_to_sheet T SELL = Some n_capital_gains /\ type_to_sheet T GIFT = Some n_gifts /\ type_to_sheet T DONATE = Some n_donations
+  /\ type_to_sheet T FEE = Some n_investment_expenses /\ type_to_sheet T LOST = Some n_investment_expenses
+  /\ type_to_sheet T MOVE = Some n_investment_expenses
+  /\ type_to_sheet T AIRDROP = Some n_airdrops /\ type_to_sheet T HARDFORK = Some n_hard_forks /\ type_to_sheet T INCOME = Some n_income
+  /\ type_to_sheet T INTEREST = Some n_interest /\ type_to_sheet T MINING = Some n_mining /\ type_to_sheet T STAKING = Some n_staking
+  /\ type_to_sheet T WAGES = Some n_wages.
+Lemma us_routing_documented : routing_as_documented tax_tables_us.
+Proof. vm_compute. repeat split. Qed.
+Lemma ie_routing_documented : routing_as_documented tax_tables_ie.
+Proof. vm_compute. repeat split. Qed.
+
+(** the columns of a row: (a) amount + asset, (b) date acquired, (c) date sold, (d) proceeds, (e) cost basis,
+    (h) gain, LONG/SHORT, full timestamp; income rows leave (b) and (e) blank *)
+Definition columns_as_documented (T : trtables) : Prop :=
+  In (0, TF_amount) (tt_cols_always T) /\ In (1, TF_asset) (tt_cols_always T) /\ In (3, TF_ev_date) (tt_cols_always T)
+  /\ In (4, TF_proceeds) (tt_cols_always T) /\ In (8, TF_gain) (tt_cols_always T) /\ In (14, TF_long_short) (tt_cols_always T)
+  /\ In (15, TF_ev_ts) (tt_cols_always T)
+  /\ In (2, TF_lot_date) (tt_cols_lot T) /\ In (5, TF_cost) (tt_cols_lot T)
+  /\ In (2, TF_blank) (tt_cols_nolot T) /\ In (5, TF_blank) (tt_cols_nolot T).
+Lemma us_columns_documented : columns_as_documented tax_tables_us.
+Proof. unfold columns_as_documented. repeat split; in_list. Qed.
+Lemma ie_columns_documented : columns_as_documented tax_tables_ie.
+Proof. unfold columns_as_documented. repeat split; in_list. Qed.
+
+(** ---------- finding F4: the replay corpus/C14/f4-ie-lost.json as the harness encodes it
+    (IE, fifo, BTC: IN row 3 2020-01-01 BUY 2 @ 100; OUT row 9 2021-03-01 LOST 1 @ 200; one fraction 9 <- 3) *)
+Definition f4_code : list Z :=
+  [3; 9223372036854775807; 0; 2932896; 0; 1; 8; 67; 111; 105; 110; 98; 97; 115; 101; 1; 3; 66; 111; 98; 1; 1970; 0; 1; 3; 66; 84; 67;
+   1; 3; 1577836800000000; 0; 0; 0; 1; 10000000000000; 200000000000; 0; 0; 0; 0; 0; 0; 0; 0;
+   1; 9; 1614556800000000; 0; 0; 0; 8; 20000000000000; 100000000000; 0; 0; 0; 0; 0; 0; 0; 0; 1; 9; 1; 3; 100000000000].
+
+(** if the IE map has no sheet for LOST, this valid one-disposal input yields no report at all;
+    with the US tables the same history (as a US input) produces the Investment Expenses sheet *)
+Lemma ie_lost_refuted : type_to_sheet tax_tables_ie LOST = None ->
+  exists i, rd_rinput f4_code = Some (Ok i, []) /\ tax_report tax_tables_ie i = Err EInternal.
+Proof.
+  intro H. remember (rd_rinput f4_code) as r eqn:E. vm_compute in E. subst r.
+  eexists. split; [reflexivity|].
+  first [ (* the map lacks LOST: the model computes the KeyError *)
+          vm_compute; reflexivity
+        | (* the map has LOST: the hypothesis is false *)
+          exfalso; vm_compute in H; discriminate ].
+Qed.
+
+Example f4_input_is_wellformed : exists i, rd_rinput f4_code = Some (Ok i, []) /\ exists out, tax_report tax_tables_us i = Ok out
+  /\ map sw_name out = [s_Legend; n_investment_expenses].
+Proof.
+  remember (rd_rinput f4_code) as r eqn:E. vm_compute in E. subst r.
+  eexists. split; [reflexivity|]. eexists. split; [vm_compute; reflexivity|]. vm_compute. reflexivity.
+Qed.
+
+(** ---------- last on purpose: everything above is checked even when this fails *)
+(** holds only when every type that can be a taxable event has a sheet in the IE map: with LOST missing
+    (finding F4) this proof does not compile *)
+Lemma ie_routing_total : routing_total tax_tables_ie = true.
+Proof. vm_compute. reflexivity. Qed.
